@@ -100,6 +100,31 @@ def clipPosition (H W : Nat) (p : Rat × Rat) : Rat × Rat :=
 section Carrier
 variable {R : Type} [Num R]
 
+/-! ## 1b. scan positions with rotation / transposition (numeric: `cos`, `sin`) -/
+
+/-- `_set_initial_scan_positions_px` in general (no mask): raster in Å, `AffineTransform(angle)` about the
+mean position when `com_rotation_rad != 0` (row vectors times `[[cos, -sin], [sin, cos]]`), axes (and
+sampling) exchanged when `com_transpose`, shifted to be non-negative (`min(...).clip(-inf, 0)`), divided
+by the object sampling, padded.  `padR padC` is the padding in use (the rotated object shape needs
+`floor` of trigonometric values and is read back from the library, not modelled). -/
+def scanPositionsGeneral (gr gc : Nat) (stepR stepC sampR sampC padR padC angle : R) (transpose : Bool) :
+    List (R × R) :=
+  let raw : List (R × R) := (List.range gr).flatMap fun (i : Nat) => (List.range gc).map fun (j : Nat) =>
+    (Num.ofNat i * stepR, Num.ofNat j * stepC)
+  let rot : List (R × R) :=
+    if isZero angle then raw else
+    let o1 := Num.sum (raw.map (·.1)) / Num.ofNat raw.length      -- positions.mean(0)
+    let o2 := Num.sum (raw.map (·.2)) / Num.ofNat raw.length
+    let c := Num.cos angle
+    let s := Num.sin angle
+    raw.map fun p => ((p.1 - o1) * c + (p.2 - o2) * s + o1, (p.1 - o1) * (-s) + (p.2 - o2) * c + o2)
+  let tp : List (R × R) := if transpose then rot.map fun p => (p.2, p.1) else rot
+  let s1 := if transpose then sampC else sampR
+  let s2 := if transpose then sampR else sampC
+  let m1 := tp.foldl (fun acc p => Num.min acc p.1) Num.zero      -- min(positions, axis=0).clip(-inf, 0)
+  let m2 := tp.foldl (fun acc p => Num.min acc p.2) Num.zero
+  tp.map fun p => ((p.1 - m1) / s1 + padR, (p.2 - m2) / s2 + padC)
+
 /-! ## 2. forward pass at one scan position -/
 
 /-- `obj_flat[s][patch_indices]` for one slice, keeping the `(R0, R1)` shape of the index tensor
